@@ -177,7 +177,10 @@ class Generator(AbstractODSGenerator):
         for entry in chain(in_transaction_set, out_transaction_set, intra_transaction_set):  # type: ignore
             years_2_transaction_sets.setdefault(entry.timestamp.year, []).append(entry)
 
-        for year, transaction_set in years_2_transaction_sets.items():
+        # Years are processed in ascending order (the dictionary is filled table by table, so its order is not chronological):
+        # each year sheet carries over the closing balance of the most recent earlier year that has a sheet.
+        previous_year: Optional[int] = None
+        for year, transaction_set in sorted(years_2_transaction_sets.items()):
             # Sort the transactions by timestamp and generate sheet by year
             previous_year_row_offset = self.__generate_asset_year(
                 asset=asset,
@@ -185,7 +188,9 @@ class Generator(AbstractODSGenerator):
                 transaction_list=sorted(transaction_set, key=lambda x: x.timestamp),
                 output_file=output_file,
                 previous_year_row_offset=previous_year_row_offset,
+                previous_year=previous_year,
             )
+            previous_year = year
 
             summary_sheet: Any = output_file.sheets[self.get_summary_sheet_name(year)]
 
@@ -280,7 +285,15 @@ class Generator(AbstractODSGenerator):
             donated_amount_in_yen=donated_amount_in_yen,
         )
 
-    def __generate_asset_year(self, asset: str, year: int, transaction_list: List[AbstractTransaction], output_file: Any, previous_year_row_offset: int) -> int:
+    def __generate_asset_year(
+        self,
+        asset: str,
+        year: int,
+        transaction_list: List[AbstractTransaction],
+        output_file: Any,
+        previous_year_row_offset: int,
+        previous_year: Optional[int] = None,
+    ) -> int:
         asset_year_sheet: Any = output_file.sheets[self.ASSET_TEMPLATE_SHEET].copy(newname=self.get_tax_sheet_name(asset, year))
         output_file.sheets += asset_year_sheet
 
@@ -346,8 +359,9 @@ class Generator(AbstractODSGenerator):
         # Last year's totals
         previous_year_crypto_cell: Optional[str] = None
         previous_year_yen_cell: Optional[str] = None
-        if previous_year_row_offset != 0:
-            previous_year_sheet_name: str = self.get_tax_sheet_name(asset, year - 1)
+        if previous_year_row_offset != 0 and previous_year is not None:
+            # The previous sheet of this asset is not necessarily the one of year - 1: years without transactions have no sheet
+            previous_year_sheet_name: str = self.get_tax_sheet_name(asset, previous_year)
             previous_year_crypto_cell = f"='{previous_year_sheet_name}'.I{previous_year_row_offset}"
             previous_year_yen_cell = f"='{previous_year_sheet_name}'.I{previous_year_row_offset+1}"
 
